@@ -26,6 +26,9 @@ structure Good (rcEnv : List Char → Option CFV) (t : Expr) (n : Node) : Prop w
   isHint : n.isHint = t.isHintLeaf
   isFc : n.isFc = t.isFcLeaf
 
+@[simp] theorem fcInit_comp (st : CFV) (h : Option String) (x : Option FExpr) : fcInit (.comp st h x) = x := by
+  cases x <;> rfl
+
 theorem isHint_cases {n : Node} (h : n.isHint = true) : ∃ k t, n = .hint k t := by
   cases n <;> simp [Node.isHint] at h
   exact ⟨_, _, rfl⟩
@@ -100,7 +103,7 @@ theorem orXor_char (o : BOp) (ho : o = .or_ ∨ o = .xor_) {l r : Expr} {a b : N
     (bad = true → orXorComp o a b = .error .invalidExpr) ∧
     (bad = false → ∃ n, orXorComp o a b = .ok n ∧
         n.state = (match o with | .or_ => CFV.or a.state b.state | _ => CFV.xor a.state b.state) ∧
-        n.isHint = false ∧ n.isFc = false) := by
+        n.isHint = false ∧ n.isFc = false ∧ fcInit n = fcConnect o (fcInit a) b) := by
   intro bad
   have na := ga.neutral
   have nb := gb.neutral
@@ -135,14 +138,15 @@ theorem orXor_char (o : BOp) (ho : o = .or_ ∨ o = .xor_) {l r : Expr} {a b : N
     have hn : ¬ ((a.state = .N ∧ b.state ≠ .N) ∨ (b.state = .N ∧ a.state ≠ .N)) := by
       rw [hN]; simp [h1]
     rw [if_neg hn]
-    refine ⟨_, rfl, ?_, rfl, rfl⟩
+    refine ⟨_, rfl, ?_, rfl, rfl, fcInit_comp _ _ _⟩
     rcases ho with rfl | rfl <;> rfl
 
 
 /-- `_then_also` on a good partner that is a hint leaf or carries a requirement constraint -/
 theorem thenAlso'_char {fcn other : Node} {t : Expr} (g : Good rcEnv t other)
     (h : t.isHintLeaf = true ∨ neutralOnly t = false) :
-    ∃ n, thenAlso' fcn other = .ok n ∧ n.state = other.state ∧ n.isHint = false ∧ n.isFc = false := by
+    ∃ n, thenAlso' fcn other = .ok n ∧ n.state = other.state ∧ n.isHint = false ∧ n.isFc = false ∧
+      fcInit n = (if other.state = .F ∨ other.isHint = true then fcConnect .and_ (fcInit fcn) other else none) := by
   unfold thenAlso'
   by_cases hs : other.state = .N
   · have hno : neutralOnly t = true := g.neutral.1 hs
@@ -152,10 +156,15 @@ theorem thenAlso'_char {fcn other : Node} {t : Expr} (g : Good rcEnv t other)
       · rw [hno] at h; cases h
     have : other.isHint = true := by rw [g.isHint]; exact hh
     obtain ⟨k, tx, rfl⟩ := isHint_cases this
-    simp [Node.state]
-    exact ⟨rfl, rfl⟩
+    simp only [Node.state, not_true_eq_false, ↓reduceIte, Node.isHint, or_true]
+    exact ⟨_, rfl, rfl, rfl, rfl, fcInit_comp _ _ _⟩
   · simp only [ne_eq, hs, not_false_eq_true, ↓reduceIte]
-    exact ⟨_, rfl, rfl, rfl, rfl⟩
+    refine ⟨_, rfl, rfl, rfl, rfl, ?_⟩
+    have hnh : other.isHint = false := by
+      cases h' : other.isHint with
+      | false => rfl
+      | true => obtain ⟨k, tx, rfl⟩ := isHint_cases h'; exact absurd rfl hs
+    by_cases hF : other.state = .F <;> simp [hF, hnh]
 
 /-- **Characterisation.** On the documented domain, under any assignment, evaluation raises the invalid-expression
 error iff the expression is structurally invalid; otherwise it succeeds with the state `denote` prescribes. -/
@@ -204,7 +213,7 @@ theorem eval_char (t : Expr) (hwf : WF t = true) (ha : Assigns rcEnv hintEnv t) 
           · intro h
             simp only [invalidAt, hil, hir, Bool.false_or, Bool.true_or, Bool.true_and,
               show (Op.or_ == Op.or_) = true from rfl] at h
-            obtain ⟨n, hn, hst, hh, hf⟩ := c2 h
+            obtain ⟨n, hn, hst, hh, hf, _⟩ := c2 h
             refine ⟨n, hn, ?_⟩
             constructor
             · rw [hst]; simp [denote, ga.state, gb.state]
@@ -221,7 +230,7 @@ theorem eval_char (t : Expr) (hwf : WF t = true) (ha : Assigns rcEnv hintEnv t) 
           · intro h
             simp only [invalidAt, hil, hir, Bool.false_or, Bool.or_true, Bool.true_and,
               show (Op.xor_ == Op.or_) = false from rfl, show (Op.xor_ == Op.xor_) = true from rfl] at h
-            obtain ⟨n, hn, hst, hh, hf⟩ := c2 h
+            obtain ⟨n, hn, hst, hh, hf, _⟩ := c2 h
             refine ⟨n, hn, ?_⟩
             constructor
             · rw [hst]; simp [denote, ga.state, gb.state]
@@ -241,7 +250,7 @@ theorem eval_char (t : Expr) (hwf : WF t = true) (ha : Assigns rcEnv hintEnv t) 
               rcases hwf with h | h
               · exact Or.inl h
               · exact Or.inr h
-            obtain ⟨n, hn, hst, hh, hf⟩ := thenAlso'_char (fcn := a) gb hr'
+            obtain ⟨n, hn, hst, hh, hf, _⟩ := thenAlso'_char (fcn := a) gb hr'
             refine ⟨n, by simpa using hn, ?_⟩
             constructor
             · rw [hst, gb.state]; simp [denote, hfl]
@@ -253,7 +262,7 @@ theorem eval_char (t : Expr) (hwf : WF t = true) (ha : Assigns rcEnv hintEnv t) 
               simp [hfl] at hwf
               exact ⟨hwf.1, by rcases hwf.2 with h | h; exact Or.inl h; exact Or.inr h⟩
             obtain ⟨rh, rn⟩ := fcLeaf_not_hint hrf.1
-            obtain ⟨n, hn, hst, hh, hf⟩ := thenAlso'_char (fcn := b) ga hrf.2
+            obtain ⟨n, hn, hst, hh, hf, _⟩ := thenAlso'_char (fcn := b) ga hrf.2
             refine ⟨n, by simpa using hn, ?_⟩
             constructor
             · rw [hst, ga.state]; simp [denote, hfl]
